@@ -13,7 +13,7 @@ def _pick(name, alts):
     return alts[int(fresh_int(name, 0, len(alts) - 1))]
 
 
-def skeleton(n, atoms=("C",), tree_bonds=("",), ring_bonds=("",), max_deg=4, tag="k"):
+def skeleton(n, atoms=("C",), tree_bonds=("",), ring_bonds=("",), max_deg=4, tag="k", ring_bond_sides=("open",)):
     parent, stack = [None], [0]
     deg = [0] * n
     for i in range(1, n):
@@ -42,13 +42,16 @@ def skeleton(n, atoms=("C",), tree_bonds=("",), ring_bonds=("",), max_deg=4, tag
     text = [_pick("%sa%d" % (tag, i), atoms) for i in range(n)]
     tb = [None] + [_pick("%sb%d" % (tag, i), tree_bonds) for i in range(1, n)]
     rb = {e: _pick("%sq_%d_%d" % ((tag,) + e), ring_bonds) for e in rings}
+    # where the ring bond's symbol is written: on the opening label, the closing label, or both
+    side = {e: (_pick("%ss_%d_%d" % ((tag,) + e), ring_bond_sides) if rb[e] else "open") for e in rings}
 
     def atom(u):
         t = text[u]
         for e in sorted(rings):
             if u in e:
                 d = str(lab[e]) if lab[e] < 10 else "%%%d" % lab[e]
-                t += (rb[e] if u == e[0] else "") + d
+                here = side[e] == "both" or (side[e] == "open") == (u == e[0])
+                t += (rb[e] if here else "") + d
         ch = children[u]
         for c in ch[:-1]:
             t += "(" + tb[c] + atom(c) + ")"
@@ -58,6 +61,7 @@ def skeleton(n, atoms=("C",), tree_bonds=("",), ring_bonds=("",), max_deg=4, tag
     return atom(0)
 
 
-def bounds(n, atoms=("C",), tree_bonds=("",), ring_bonds=("",), max_deg=4):
-    return {"atoms": n, "atom_spellings": list(atoms), "tree_bond_symbols": list(tree_bonds), "ring_bond_symbols (on the opening label)": list(ring_bonds),
+def bounds(n, atoms=("C",), tree_bonds=("",), ring_bonds=("",), max_deg=4, ring_bond_sides=("open",)):
+    return {"atoms": n, "atom_spellings": list(atoms), "tree_bond_symbols": list(tree_bonds), "ring_bond_symbols": list(ring_bonds),
+            "ring_bond_symbol_written_on": list(ring_bond_sides),
             "max_degree": max_deg, "spanning_tree": "every writing order", "ring_bonds": "every subset of the remaining pairs"}
